@@ -46,6 +46,7 @@ from elements import FiniteElement, LagrangeElement, MixedElement, SymmetricElem
 HAND_FILES = ["Props/C18_model.v", "Props/C18_sound.v", "Props/C18_poly.v"]
 
 KNOWN_ID = "indexed-reference-walk"
+FIXED = {"v": False}     # /repo implements the fixed variant of `indexed` (decided by C18_rules.detect_variant)
 
 
 # ------------------------------------------------------------------------------------------------
@@ -126,7 +127,7 @@ class Pool:
 
     def element(self):
         r, g = self.rng, self.g
-        kinds = ["P", "P", "vec", "ten", "mix2", "mixv", "mix3", "nest", "enr", "mixenr"]
+        kinds = ["P", "P", "vec", "ten", "mix2", "mixv", "mix3", "nest", "enr", "mixenr", "rand", "rand", "rand"]
         if g >= 2 and not self.quad and g == self.t:
             kinds += ["sym", "sym", "sym", "mixsym", "symmix", "rt", "mixrt"]
         if g > self.t:
@@ -134,6 +135,8 @@ class Pool:
         k = r.choice(kinds)
         if k == "P":
             return self.P()
+        if k == "rand":
+            return self.random_mixed()
         if k == "enr":
             return self.enriched()
         if k == "mixenr":
@@ -165,6 +168,34 @@ class Pool:
         if k == "n1mix":
             return MixedElement([self.N1(), self.P()])
         raise AssertionError(k)
+
+    def random_sub(self, depth=0):
+        r, g = self.rng, self.g
+        ks = ["P", "P", "vec", "enr"]
+        if not self.quad:
+            ks += ["rt", "n1"]
+        if depth == 0:
+            ks += ["nest"]
+            if g >= 2 and not self.quad and g == self.t:
+                ks += ["sym"]
+        k = r.choice(ks)
+        if k == "P":
+            return self.P()
+        if k == "vec":
+            return self.P(sh=(r.choice([2, 3]),))
+        if k == "enr":
+            return self.enriched()
+        if k == "rt":
+            return self.RT()
+        if k == "n1":
+            return self.N1()
+        if k == "sym":
+            return self.sym()
+        return MixedElement([self.random_sub(1) for _ in range(r.randint(2, 3))])
+
+    def random_mixed(self):
+        """mixed element with 2-4 sub-elements of random kinds, value sizes and degrees"""
+        return MixedElement([self.random_sub() for _ in range(self.rng.randint(2, 4))])
 
     def space(self):
         return ufl.FunctionSpace(self.mesh, self.element())
@@ -358,7 +389,8 @@ def terminal_info(t):
         subs = [(int(s.reference_value_size), int(s.embedded_superdegree)) for s in el.sub_elements]
         pd = owner_degrees(el, dom)
         assert len(pd) == prod(sh), (pd, sh)
-        return int(el.embedded_superdegree), sh, (subs, pd)
+        return int(el.embedded_superdegree), sh, (subs, pd, isinstance(el.pullback, SymmetricPullback),
+                                                  int(el.reference_value_size))
     if isinstance(t, C.Constant):
         return 0, sh, None
     if isinstance(t, C.SpatialCoordinate):
@@ -390,9 +422,9 @@ def coq_tinfo(info):
     if el is None:
         els = "None"
     else:
-        subs, pd = el
+        subs, pd, sym, refsize = el
         els = ("(Some {| e_subs := [" + "; ".join(f"({a}, {b})" for a, b in subs) + "]; e_pdeg := "
-               + ufl2coq.natlist(pd) + " |})")
+               + ufl2coq.natlist(pd) + f"; e_sym := {'true' if sym else 'false'}; e_refsize := {refsize} |}})")
     return f"{{| t_deg := {d}; t_shape := {ufl2coq.natlist(sh)}; t_elem := {els} |}}"
 
 
@@ -419,6 +451,7 @@ class Case:
         self.infos = infos
         cl = "[" + ";\n   ".join(f"({k}, {i}, {coq_tinfo(inf)})" for k, i, inf in infos) + "]"
         q = "true" if is_quad(self.e) else "false"
+        q = f"{q} {self.name}_cfg {'true' if FIXED['v'] else 'false'}"
         n = self.name
         txt = [f"(* {n}: {self.note} *)\n", ser.definitions_text(),
                f"Definition {n}_l : list (nat * nat * tinfo) := {cl}.\nDefinition {n}_cfg := mkcfg {n}_l.\n",
@@ -426,13 +459,13 @@ class Case:
         if self.real == "raise":
             txt.append(f"Example {n}_est : supported {n}_e = false. Proof. vm_compute. reflexivity. Qed.\n")
         else:
-            txt.append(f"Example {n}_est : (supported {n}_e, wf_list {n}_l, estimate {q} {n}_cfg {n}_e) = "
+            txt.append(f"Example {n}_est : (supported {n}_e, wf_list {n}_l, estimate {q} {n}_e) = "
                        f"(true, true, {int(self.real)}). Proof. vm_compute. reflexivity. Qed.\n")
         ex = txt.pop()
         self.example = ex
         self.aborted = ex[:ex.index("Proof.")] + "Proof. Abort. (* MISMATCH *)\n"
-        self.tail = (f"Eval vm_compute in (C18TAG, poly {q} {n}_cfg {n}_e, guard {n}_cfg {n}_e).\n"
-                     f"Eval vm_compute in (C18VAL, supported {n}_e, wf_list {n}_l, estimate {q} {n}_cfg {n}_e).\n")
+        self.tail = (f"Eval vm_compute in (C18TAG, poly {q} {n}_e, guard {n}_cfg {'true' if FIXED['v'] else 'false'} {n}_e).\n"
+                     f"Eval vm_compute in (C18VAL, supported {n}_e, wf_list {n}_l, estimate {q} {n}_e).\n")
         self.head = "".join(txt)
         self.lemmas = [f"{n}_est"]
         return self.text("example")
@@ -483,7 +516,7 @@ class PolyEnv(pyden.Env):
         return j
 
     def _farg(self, t, comp, side):
-        _d, sh, (_subs, pd) = terminal_info(t)
+        _d, sh, (_subs, pd, _sym, _rs) = terminal_info(t)
         flat = 0
         for c, d in zip(comp, sh):
             flat = flat * d + c
@@ -556,6 +589,34 @@ def witness_case():
     return u[1, 0]
 
 
+def sweep_cases(rng, nelem, maxcomp=10):
+    """Exhaustive small scope for `indexed`: every fixed component u[idx] (and one restricted /
+    differentiated neighbour) of random elements with sub-elements."""
+    out = []
+    cells = ["triangle"] * 4 + ["tetrahedron", "interval", "quadrilateral", "manifold"]
+    tries = 0
+    while len(out) < nelem and tries < 20 * nelem:
+        tries += 1
+        cn = rng.choice(cells)
+        pool = Pool(rng, "triangle", 3) if cn == "manifold" else Pool(rng, cn)
+        el = pool.element() if rng.random() < 0.4 else pool.random_mixed()
+        if not el.sub_elements:
+            continue
+        V = ufl.FunctionSpace(pool.mesh, el)
+        u = ufl.Coefficient(V) if rng.random() < 0.7 else ufl.Argument(V, 0)
+        comps = list(np.ndindex(u.ufl_shape))
+        rng.shuffle(comps)
+        es = []
+        for idx in comps[:maxcomp]:
+            idx = tuple(int(i) for i in idx)
+            es.append((u[idx], f"{cn} sweep {idx}"))
+        if comps and not pool.quad:
+            idx = tuple(int(i) for i in comps[0])
+            es.append((ufl.grad(u[idx])[0] * u[idx], f"{cn} sweep grad {idx}"))
+        out.append((es, pool.g, pool.quad))
+    return out
+
+
 def build_cases(run):
     rng = random.Random(1000003 * run.seed + 18)
     n = 260 if run.tier == "quick" else 2600
@@ -571,6 +632,11 @@ def build_cases(run):
     for note, e, g in fixed:
         cases.append((f"c{k}", e, note, g, False))
         k += 1
+    for es, g, quad in sweep_cases(rng, 10 if run.tier == "quick" else 80):
+        for e, note in es:
+            cases.append((f"c{k}", e, note, g, quad))
+            k += 1
+    n += len(cases)
     while len(cases) < n:
         cn = rng.choice(cells)
         pool = Pool(rng, "triangle", 3) if cn == "manifold" else Pool(rng, cn)
@@ -598,6 +664,8 @@ def main(run):
     import time as _t
     T0 = _t.time()
     tm = run.extra.setdefault("phase_s", {})
+    FIXED["v"] = bool(C18_rules.detect_variant())
+    run.extra["indexed_variant"] = "fixed (physical/reference sizes agree, not symmetric)" if FIXED["v"] else "pinned"
     model_res = vlib.coqc(HAND_FILES[0])
     tm["model"] = round(_t.time() - T0, 1)      # re-checked on every run; the others in parallel below
     # ---- T1: handler table and arithmetic translated from the source (runs concurrently with T3)
@@ -625,25 +693,80 @@ def main(run):
         for x in ufl.corealg.traversal.unique_pre_traversal(e):
             hist[type(x).__name__] = hist.get(type(x).__name__, 0) + 1
     run.extra["node_histogram"] = dict(sorted(hist.items(), key=lambda kv: -kv[1])[:40])
-    # attach_estimated_degrees (compute_form_data's use of the estimator) on the same integrands
+    # attach_estimated_degrees (compute_form_data's use of the estimator) on the same integrands:
+    # fresh integrals, integrals that already carry a (stale) estimate or other metadata, and
+    # multi-step sequences compute_form_data -> reuse the preprocessed integrals with another
+    # integrand (Integral.reconstruct / replace keep the metadata) -> compute_form_data again
     from ufl.algorithms.compute_form_data import attach_estimated_degrees
     attach_bad = []
-    sub = [c for c in cases if c.real != "raise"][: (60 if run.tier == "quick" else 400)]
+    arng = random.Random(run.seed * 31 + 5)
+    sub = [c for c in cases if c.real != "raise"][: (70 if run.tier == "quick" else 400)]
+    nattach = 0
     for c in sub:
+        if not terminals_of(c.e):
+            continue
+        dom = ufl.domain.extract_unique_domain(c.e)
+        mds = [None, {"estimated_polynomial_degree": max(c.real - arng.randint(1, 3), 0)},
+               {"estimated_polynomial_degree": c.real + arng.randint(1, 4), "quadrature_rule": "default"},
+               {"quadrature_degree": 2}]
+        for md in mds:
+            form = c.e * ufl.dx(domain=dom, metadata=md) + c.e * ufl.ds(domain=dom, metadata=md)
+            nattach += 1
+            try:
+                f2 = attach_estimated_degrees(form)
+            except Exception as ex:
+                attach_bad.append((c, f"metadata {md}: raised {ex!r}", None))
+                continue
+            for it in f2.integrals():
+                got = it.metadata().get("estimated_polynomial_degree")
+                if got != c.real:
+                    attach_bad.append((c, f"integral with metadata {md}: attached {got} != estimate {c.real}", None))
+                if md and any(it.metadata().get(k) != v for k, v in md.items() if k != "estimated_polynomial_degree"):
+                    attach_bad.append((c, f"metadata {md} not preserved: {it.metadata()}", None))
+    run.extra["attach_estimated_degrees_checked"] = nattach
+    # multi-step sequences through compute_form_data
+    from ufl.algorithms import compute_form_data
+    nseq = 0
+    want = 10 if run.tier == "quick" else 60
+    for c in cases:
+        if nseq >= want:
+            break
         g, quad = meta[c.name]
-        dom = ufl.domain.extract_unique_domain(c.e) if terminals_of(c.e) else None
-        if dom is None:
+        ts = terminals_of(c.e)
+        if c.real == "raise" or quad or not ts or any(isinstance(t, C.Argument) for t in ts) \
+                or known_class(c.e) or c.real > 6:
             continue
-        form = c.e * ufl.dx(domain=dom) + c.e * ufl.ds(domain=dom)
+        dom = ufl.domain.extract_unique_domain(c.e)
         try:
-            f2 = attach_estimated_degrees(form)
-        except Exception as ex:
-            attach_bad.append((c, "raised " + repr(ex)))
+            with warnings.catch_warnings():
+                warnings.simplefilter("ignore")
+                fd1 = compute_form_data(c.e * ufl.dx(arng.randint(1, 3), domain=dom))
+                its = [itg for itd in fd1.integral_data for itg in itd.integrals]
+                if len(its) != 1 or "estimated_polynomial_degree" not in its[0].metadata():
+                    continue
+                h = ufl.Coefficient(ufl.FunctionSpace(dom, LagrangeElement(dom.ufl_cell(), arng.randint(2, 3))))
+                variants = [("Integral.reconstruct(integrand=integrand*h**2)",
+                             ufl.Form([its[0].reconstruct(integrand=its[0].integrand() * h**2)]))]
+                coefs = [t for t in ts if isinstance(t, C.Coefficient)]
+                if coefs:
+                    w = arng.choice(coefs)
+                    variants.append(("replace(Form(preprocessed integrals), {w: w*h})",
+                                     ufl.replace(ufl.Form(its), {w: w * h})))
+                for how, form2 in variants:
+                    integrand2 = form2.integrals()[0].integrand()
+                    fd2 = compute_form_data(form2)
+                    got = [i.metadata()["estimated_polynomial_degree"] for idt in fd2.integral_data for i in idt.integrals]
+                    td = true_degree(integrand2, max(got + [c.real]) + 8, run.seed + nseq, g)
+                    nseq += 1
+                    if td is not None and got and min(got) < td:
+                        attach_bad.append((c, f"second compute_form_data after {how}: attached {got}, true degree {td}, "
+                                              f"first pass attached {its[0].metadata()['estimated_polynomial_degree']}",
+                                           str(integrand2)[:1500]))
+        except Exception as ex:     # forms the pipeline rejects (arity, restrictions in dx, ...) are skipped
+            run.extra.setdefault("multistep_skipped", []).append(type(ex).__name__)
             continue
-        for it in f2.integrals():
-            if it.metadata().get("estimated_polynomial_degree") != c.real:
-                attach_bad.append((c, f"attached {it.metadata().get('estimated_polynomial_degree')} != {c.real}"))
-    run.extra["attach_estimated_degrees_checked"] = len(sub)
+    run.extra["multistep_sequences_checked"] = nseq
+    run.extra["multistep_skipped"] = len(run.extra.get("multistep_skipped", []))
 
     tm["gen+real"] = round(_t.time() - T0, 1)
     # emit + compile
@@ -753,7 +876,8 @@ def main(run):
                    "terminals": [(k, i, inf) for k, i, inf in c.infos], "case": c.name,
                    "reproduce": "estimate_total_polynomial_degree(input) < degree of the polynomial it denotes "
                                 "when every form-argument component is a polynomial of the degree of its owning sub-element"}
-            if (c.name not in mism) and c.poly and not c.guard and known_class(c.e) and KNOWN_ID in known:
+            if (not FIXED["v"]) and (c.name not in mism) and c.poly and not c.guard and known_class(c.e) \
+                    and KNOWN_ID in known:
                 stats["underestimates_in_known_class"] += 1
                 known_hits.append(rep)
             else:
@@ -787,14 +911,20 @@ def main(run):
         if len(run.violations) >= 8:
             break
     attach_bad.sort(key=lambda cm: known_class(cm[0].e))
-    for c, msg in attach_bad[:3]:
-        run.violation({"broken": "attach_estimated_degrees does not attach the estimated degree",
-                       "input": str(c.e)[:2000], "message": msg, "expected": c.real}, True)
+    for c, msg, second in attach_bad[:3]:
+        rep = {"broken": "attach_estimated_degrees / compute_form_data does not attach the estimate of the current integrand",
+               "input": str(c.e)[:2000], "message": msg, "estimate_of_input": c.real,
+               "reproduce": "attach_estimated_degrees(Form) on integrals with the given metadata; or the multi-step "
+                            "sequence compute_form_data -> reuse integrals -> compute_form_data"}
+        if second:
+            rep["second_integrand"] = second
+        run.violation(rep, True)
         ok = False
     t1 = t1_fut.result()
     for name, okk, msg in t1:
         if not okk:
             w = next(({k: v[k] for k in ("input", "real_estimate", "true_degree")} for v in violations), None) \
+                or next(({"input": str(c.e)[:1500], "message": m, "second_integrand": s2} for c, m, s2 in attach_bad), None) \
                 or search_underestimate(run, None)
             rep = {"broken_obligation": name, "message": msg,
                    "what": "the handler table / arithmetic regenerated from estimate_degrees.py no longer matches the model"}
@@ -804,7 +934,13 @@ def main(run):
             ok = False
 
     # ---- known finding: replay the witness on the real code
-    if KNOWN_ID in known:
+    if FIXED["v"]:
+        w = witness_case()
+        est = real_estimate(w)
+        run.extra["known_finding_status"] = f"fixed variant of indexed in /repo: witness estimated {est} (true degree 3)"
+        if est != "raise" and est < 3:
+            run.violation({"input": "u[1,0] on SymmetricElement(P1,P3,P1)", "real_estimate": est, "true_degree": 3}, True)
+    elif KNOWN_ID in known:
         w = witness_case()
         est = real_estimate(w)
         td = true_degree(w, est, 1, 2)
@@ -856,6 +992,9 @@ def _search_underestimate(run, case):
     cands = []
     if case is not None:
         cands.append((case.e, 3))
+    for es, g, quad in sweep_cases(rng, 150 if run.tier == "quick" else 600, maxcomp=16):
+        if not quad:
+            cands += [(e, g) for e, _ in es]
     for _ in range(tries):
         cn = rng.choice(["triangle", "triangle", "tetrahedron", "interval"])
         pool = Pool(rng, cn)
@@ -873,7 +1012,7 @@ def _search_underestimate(run, case):
             est = real_estimate(e)
         except Exception:
             continue
-        if est == "raise" or known_class(e):
+        if est == "raise" or (known_class(e) and not FIXED["v"]):
             continue
         td = true_degree(e, est, rng.randrange(10**6), g)
         if td is not None and td > est:
